@@ -1,3 +1,61 @@
-From Flodym Require Import Base.ND.
-Theorem placeholder : True. Proof. exact I. Qed.
-Print Assumptions placeholder.
+(* C14 — dimension sets behave as ordered sets of uniquely lettered dimensions.  Statements only. *)
+From Coq Require Import List Arith Bool.
+Import ListNotations.
+From Flodym Require Import Base.Env Model.Dims Model.SubArray Model.DimHeap Proofs.C14Proofs.
+
+(* ordered-set laws (for sets with unique letters) *)
+Theorem C14_union_keeps_left_order_and_appends_new :
+  forall x y, NoDup (letters x) -> NoDup (letters y) ->
+  union_with x y = Ok (x ++ filter (fun d => negb (memb (dletter d) (letters x))) y).
+Proof. exact union_spec. Qed.
+Print Assumptions C14_union_keeps_left_order_and_appends_new.
+
+Theorem C14_intersection_keeps_left_order :
+  forall x y, NoDup (letters x) -> intersect_with x y = Ok (filter (fun d => memb (dletter d) (letters y)) x).
+Proof. exact intersect_spec. Qed.
+Print Assumptions C14_intersection_keeps_left_order.
+
+Theorem C14_difference_keeps_left_order :
+  forall x y, NoDup (letters x) -> difference_with x y = Ok (filter (fun d => negb (memb (dletter d) (letters y))) x).
+Proof. exact difference_spec. Qed.
+Print Assumptions C14_difference_keeps_left_order.
+
+Theorem C14_plus_refuses_overlap :
+  forall x y d, NoDup (letters x) -> In d x -> In (dletter d) (letters y) -> add_sets x y = Err.
+Proof. exact add_rejects_overlap. Qed.
+Print Assumptions C14_plus_refuses_overlap.
+
+Theorem C14_subset_in_requested_order :
+  forall ds ks r, get_subset ds ks = Ok r -> Forall2 (fun k d => find_key ds k = Some d) ks r.
+Proof. exact get_subset_order. Qed.
+Print Assumptions C14_subset_in_requested_order.
+
+(* histories: for EVERY sequence of constructors, operators, subset / copy, arrays built from a set,
+   and mutators with or without inplace=True ... *)
+(* ... no two DimensionSet objects ever share their Python list, *)
+Theorem C14_sets_never_share_a_list : forall ops : list dop, no_sharing (drun true ops).
+Proof. exact no_sharing_reachable. Qed.
+Print Assumptions C14_sets_never_share_a_list.
+
+(* ... hence an in-place edit of one set changes no other set (nor the set of any array built from it), *)
+Theorem C14_inplace_edit_changes_receiver_only :
+  forall h i ds j, no_sharing h -> j <> i -> cell_of (set_cell h i ds) j = cell_of h j.
+Proof. exact set_cell_frame. Qed.
+Print Assumptions C14_inplace_edit_changes_receiver_only.
+
+(* ... an out-of-place result is a new object and every existing set keeps its content, *)
+Theorem C14_out_of_place_leaves_existing_sets :
+  forall h ds j d, cell_of h j = Some d -> cell_of (new_obj h ds) j = Some d.
+Proof. exact new_obj_frame. Qed.
+Print Assumptions C14_out_of_place_leaves_existing_sets.
+
+(* ... and letters stay unique in every set, as long as the mutators add distinct dimensions. *)
+Theorem C14_letters_stay_unique :
+  forall ops : list dop, Forall wf_dop ops -> all_unique (drun true ops).
+Proof. exact letters_unique_reachable. Qed.
+Print Assumptions C14_letters_stay_unique.
+
+(* before the repair get_subset() shared the receiver's list: witness *)
+Example ex_C14_sharing_before_fix :
+  objs (drun false [DNew [mk_dim 97 0 [0]]; DSubset 0 None]) = [0; 0].
+Proof. reflexivity. Qed.
